@@ -311,6 +311,11 @@ func Quiesce() int {
 // Yield (intrinsic): a scheduling point.
 func Yield() {}
 
+// RaceReports (intrinsic): data races the symbolic executor saw on this path between accesses in the code
+// under test (happens-before detection over its scheduler); natively nil - a reported race is confirmed by
+// running the same harness under `go test -race`.
+func RaceReports() []string { return nil }
+
 // AtomicOps (intrinsic): number of sync/atomic pointer operations executed so far (-1 natively: unknown).
 func AtomicOps() int { return -1 }
 
